@@ -31,7 +31,16 @@ ObsAgrees(cfg, o) ==
   /\ o.full = (cfg.disc = "ring" /\ RingFull(o.vals, cfg.cap))
   /\ (cfg.disc = "ring" => Len(o.vals) <= cfg.cap)
 
+Tailn(s, n) == SubSeq(s, Len(s) - n + 1, Len(s))
+C12(pre, e) == e.op = "FromJSON" =>
+  /\ Completed(e)
+  /\ IF ~e.r[1] THEN e.post.vals = pre.vals
+     ELSE CASE e.cfg.disc = "fifo" -> e.post.vals = e.a.vs
+            [] e.cfg.disc = "lifo" -> SameBag(e.post.vals, e.a.vs)            \* direction of foreign text is pinned only by C11
+            [] e.cfg.disc = "ring" -> e.post.vals = Tailn(e.a.vs, IF Len(e.a.vs) < e.cfg.cap THEN Len(e.a.vs) ELSE e.cfg.cap)
+  /\ ObsAgrees(e.cfg, e.post)
 C05(pre, e) ==
+  e.op # "FromJSON" =>
   /\ Completed(e)
   /\ e.post.vals = QuePost(e.cfg, pre.vals, e)
   /\ QueRet(e.cfg, pre.vals, e)
@@ -49,6 +58,7 @@ Obl(p, pre, e) ==
   IF e.op = "NewBad" THEN (p = "C17" => SilentOK(e))      \* a documented constructor precondition: must panic (Generic)
   ELSE
   CASE p = "C05" -> C05(pre, e)
+    [] p = "C12" -> C12(pre, e)
     [] p = "C15" -> C15(pre, e)
     [] p = "C17" -> SilentOK(e)
     [] p = "C18" -> C18(pre, e)
